@@ -1,8 +1,10 @@
-(* SNAPSHOT: verbatim copy of coq/c01/C01Model.v at /verif commit c35b7dd (only this banner and the import line differ).
+(* SNAPSHOT: verbatim copy of coq/c01/C01Model.v at /verif commit 88f92e5 (the last commit touching coq/c01 as of HEAD d7d762b) (only this banner and the import line differ); second
+   snapshot (the first was taken at c35b7dd, before C01 typed esds/uuid/sgpd, proved the general C01_fixpoint and
+   followed the repo repairs 3502d85 (hdlr Size = len(HandlerType)), 954ff09 (senc), 89e24df (SLConfigDescriptor size 0)).
    C19 proves and extracts against this frozen copy because the C01 box model is being extended concurrently (new typed
-   leaves change what its decoder returns for boxes that C19's init tree holds as opaque payloads, e.g. esds), which
-   would turn C19 red through no change of the code under test.  The tie of THIS copy to the Go code is C19's own
-   correspondence: the bytes of InitSegment.Encode are compared with raw_box/encode_seq on every case.
+   leaves change what its decoder returns for boxes that C19's init tree holds as opaque payloads: at this snapshot dac3,
+   dec3, wvtt, stpp), which would turn C19 red through no change of the code under test.  The tie of THIS copy to the Go
+   code is C19's own correspondence: the bytes of InitSegment.Encode are compared with raw_box/encode_seq on every case.
    To follow C01 again: delete the two C19Box*.v files and import V.c01 C01Codec C01Model instead. *)
 (* C01Model.v — executable model of the mp4ff box codec (mp4/box.go, boxsr.go, container.go, unknown.go
    and one dec/enc/size triple per leaf box file).  DEFINITIONS ONLY.
@@ -117,6 +119,13 @@ Definition n_prof := name4 112 114 111 102.
 (* stage 4 *)
 Definition n_hvcC := name4 104 118 99 67.
 Definition n_subs := name4 115 117 98 115.
+Definition n_esds := name4 101 115 100 115.
+Definition n_uuid := name4 117 117 105 100.
+Definition n_sgpd := name4 115 103 112 100.
+Definition n_seig := name4 115 101 105 103.
+Definition n_roll := name4 114 111 108 108.
+Definition n_rap := name4 114 97 112 32.
+Definition n_alst := name4 97 108 115 116.
 
 (* ---------------------------------------------------------------- box header (box.go / boxsr.go) *)
 Record hdr := mkHdr { h_name : list N; h_size : N; h_len : N }.
@@ -145,6 +154,23 @@ Definition rsvT := list (list N).
 Record tsample := mkTs { ts_dur : N; ts_size : N; ts_flags : N; ts_cto : N }.
 (* sidx reference *)
 Record sref := mkSref { sr_type : N; sr_size : N; sr_dur : N; sr_sap : N; sr_saptype : N; sr_delta : N }.
+
+(* esds descriptors (mp4/descriptors.go).  nb is the number of bytes of the size field as read (a ghost value: Go keeps
+   sizeFieldSizeMinus1 = byte(nb - 1)); the DecSpecificInfo / SLConfig pointers and the OtherDescriptors slice of
+   Go are one list here, in stream order (EncodeSW writes them back in that order). *)
+Inductive desc :=
+| DDcd (nb ot st buf maxbr avgbr : N) (children : list desc) (unknown : list N)   (* DecoderConfigDescriptor *)
+| DDsi (nb : N) (dc : list N)                                                     (* DecSpecificInfoDescriptor *)
+| DSlc (nb cv : N) (more : list N)                                                (* SLConfigDescriptor *)
+| DRaw (tag nb : N) (data : list N).                                              (* RawDescriptor *)
+
+(* sample group description entries (mp4/samplegroupentries.go) *)
+Inductive sge :=
+| SSeig (crypt skip isp ivs : N) (kid civ : list N)          (* CryptByteBlock SkipByteBlock IsProtected PerSampleIVSize KID ConstantIV *)
+| SRoll (dist : N)                                            (* RollDistance (int16 bit pattern) *)
+| SRap (known num : N)                                        (* NumLeadingSamplesKnown NumLeadingSamples *)
+| SAlst (roll first : N) (offs : list N) (outs : list (N * N)) (* RollCount FirstOutputSample SampleOffset (NumOutputSamples, NumTotalSamples) *)
+| SUnk (data : list N).
 
 Inductive leaf :=
 | LFtyp (name : list N) (data : list N)                 (* ftyp / styp: data []byte *)
@@ -209,7 +235,21 @@ Inductive leaf :=
 | LHvcC (space : N) (tier : bool) (idc compat constr level mss par chroma bdl bdc afr cfr ntl tin : N)
         (arrays : list (N * list (list N)))
 (* Entries (SampleDelta, SubSamples (SubsampleSize, SubsamplePriority, Discardable, CodecSpecificParameters)) *)
-| LSubs (version flags : N) (entries : list (N * list (N * N * N * N))).
+| LSubs (version flags : N) (entries : list (N * list (N * N * N * N)))
+(* EsdsBox: Version Flags, ESDescriptor (size field bytes, EsID FlagsAndPriority DependsOnEsID URLString OCResID,
+   DecConfigDescriptor, SLConfig/Other descriptors, UnknownData); canon (ghost, computed by the decoder): every size
+   field was written in the encoder's form and no UnknownData was kept *)
+| LEsds (version flags nb esid fl dep : N) (url : list N) (ocr : N) (dcd : desc) (children : list desc)
+        (unknown : list N) (canon : bool)
+(* UUIDBox: tfxd (Version Flags FragmentAbsoluteTime FragmentAbsoluteDuration), tfrf (Version Flags FragmentCount, times and
+   durations), PIFF sample encryption (a SencBox without header: the fields of LSenc), any other uuid (UnknownPayload) *)
+| LUuidTfxd (version flags t d : N)
+| LUuidTfrf (version flags count : N) (entries : list (N * N))
+| LUuidSenc (flags count : N) (raw : list N) (readSize : N) (notParsed : bool)
+| LUuidUnk (uuid payload : list N)
+(* SgpdBox: Version Flags GroupingType DefaultLength DefaultGroupDescriptionIndex, per entry (description length, entry);
+   canon (ghost): the reserved byte of every seig entry was 0 *)
+| LSgpd (version flags : N) (gtype : list N) (dlen dgdi : N) (items : list (N * sge)) (canon : bool).
 
 Definition leaf_name (l : leaf) : list N :=
   match l with
@@ -229,6 +269,9 @@ Definition leaf_name (l : leaf) : list N :=
   | LCslg _ _ _ _ _ _ _ => n_cslg
   | LSenc _ _ _ _ _ => n_senc | LEmsg _ _ _ _ _ _ _ _ _ => n_emsg | LElng _ _ _ _ => n_elng | LKind _ _ _ _ => n_kind
   | LHvcC _ _ _ _ _ _ _ _ _ _ _ _ _ _ _ _ => n_hvcC | LSubs _ _ _ => n_subs
+  | LEsds _ _ _ _ _ _ _ _ _ _ _ _ => n_esds
+  | LUuidTfxd _ _ _ _ => n_uuid | LUuidTfrf _ _ _ _ => n_uuid | LUuidSenc _ _ _ _ _ => n_uuid | LUuidUnk _ _ => n_uuid
+  | LSgpd _ _ _ _ _ _ _ => n_sgpd
   end.
 
 Definition unity_matrix : list N :=
@@ -697,6 +740,9 @@ Definition dec_schm (h : hdr) : parser (leaf * rsvT) :=
   else pret (LSchm (vf_version vf) (vf_flags vf) st sv [], []).
 
 (* ---------------------------------------------------------------- senc (kept raw by DecodeSencSR) *)
+(* EncodeSWNoHdr writes rawData back when the box is readButNotParsed and, since repo commit 954ff09, when it was
+   decoded (readBoxSize > 0) and has no samples *)
+Definition senc_keeps (np : bool) (cnt rs : N) : bool := np || ((cnt =? 0) && (0 <? rs)).
 Definition dec_senc (h : hdr) : parser (leaf * rsvT) :=
   if h_size h <? 16 then pfail else
   pdo vf <- rd 4 ;;
@@ -804,6 +850,339 @@ Definition dec_subs (h : hdr) : parser (leaf * rsvT) :=
   pdo vf <- rd 4 ;; pdo cnt <- rd 4 ;;
   fun bs => (pdo es <- rd_many (S (length bs)) cnt (rd_subs_entry (subs_w (vf_version vf))) ;;
              pret (LSubs (vf_version vf) (vf_flags vf) es, [])) bs.
+
+(* ---------------------------------------------------------------- esds (mp4/esds.go, mp4/descriptors.go) *)
+(* The FixedSliceReader accumulates its error: after a read beyond the slice every later read returns nothing and
+   DecodeEsdsSR ends with sr.AccError(), so ONE short read makes the whole box fail (DHard / Err).  A descriptor
+   that fails for another reason (DSoft: maxNrBytes < 2, tag 3, size beyond maxNrBytes, nested failure) makes its
+   parent take the rest of its bytes as UnknownData. *)
+Definition int64 (x : N) : Z :=
+  if x <? 9223372036854775808 then Z.of_N x else (Z.of_N x - 18446744073709551616)%Z.
+Definition sfs_of (nb : N) : N := (nb - 1) mod 256.          (* sizeFieldSizeMinus1 is a byte *)
+
+(* readSizeSize: 7 bits per byte, the top bit says that another byte follows; the value accumulates in a uint64.
+   Returns (number of bytes, value, the bytes) *)
+Fixpoint sz_loop (bs : list N) (acc : N) : res ((N * N * list N) * list N) :=
+  match bs with
+  | [] => Err
+  | b :: t =>
+      let acc' := u64 (acc * 128 + b mod 128) in
+      if 128 <=? b then
+        match sz_loop t acc' with
+        | Ok ((nb, sz, raw), r) => Ok ((nb + 1, sz, b :: raw), r)
+        | Err => Err | Panic => Panic | OutOfFuel => OutOfFuel
+        end
+      else Ok ((1, acc', [b]), t)
+  end.
+(* writeDescriptorSize(sw, size, sizeFieldSizeMinus1): for pos := sfs; pos >= 0; pos-- *)
+Fixpoint wr_size (size : N) (pos : nat) : list N :=
+  match pos with
+  | O => [size mod 128]
+  | S p => ((size / 2 ^ (7 * N.of_nat pos)) mod 128 + 128) :: wr_size size p
+  end.
+
+Inductive dres := DOk (d : desc) (rsv : rsvT) (rest : list N) | DSoft | DHard | DFuel.
+Inductive lres := LDone (ds : list desc) (rsv : rsvT) (rest : list N)
+                | LUnknown (ds : list desc) (rsv : rsvT) (u : list N) (rest : list N) | LTooFar | LHard | LFuel.
+
+(* the `for { nrBytesLeft := int(size) - (currPos - dataStart) ... }` loop of DecodeESDescriptor and
+   DecodeDecoderConfigDescriptor; dd = DecodeDescriptor, used = currPos - dataStart *)
+Fixpoint dec_loop (dd : Z -> list N -> dres) (k : nat) (size : Z) (used : N) (bs : list N) : lres :=
+  match k with
+  | O => LFuel
+  | S k' =>
+      let left := (size - Z.of_N used)%Z in
+      if (left =? 0)%Z then LDone [] [] bs
+      else if (left <? 0)%Z then LTooFar
+      else match dd left bs with
+           | DOk d rsv r =>
+               match dec_loop dd k' size (used + (lenN bs - lenN r)) r with
+               | LDone ds rs r' => LDone (d :: ds) (rsv ++ rs) r'
+               | LUnknown ds rs u r' => LUnknown (d :: ds) (rsv ++ rs) u r'
+               | LTooFar => LTooFar | LHard => LHard | LFuel => LFuel
+               end
+           | DSoft => match rdB (Z.to_N left) bs with     (* sr.SetPos(currPos); UnknownData = sr.ReadBytes(nrBytesLeft) *)
+                      | Ok (u, r) => LUnknown [] [] u r
+                      | _ => LHard
+                      end
+           | DHard => LHard
+           | DFuel => LFuel
+           end
+  end.
+
+Definition rd_dcd_fields : parser (N * N * N * N) :=
+  pdo ot <- rd 1 ;; pdo x <- rd 4 ;; pdo maxbr <- rd 4 ;; pdo avgbr <- rd 4 ;; pret (ot, x, maxbr, avgbr).
+
+(* DecodeDecoderConfigDescriptor after tag and size field *)
+Definition dec_dcd (dd : Z -> list N -> dres) (k : nat) (nb size : N) (raw : list N) (r : list N) : dres :=
+  match rd_dcd_fields r with
+  | Ok ((ot, x, maxbr, avgbr), r1) =>
+      let left := (int64 size - 13)%Z in
+      if (left =? 0)%Z then DOk (DDcd nb ot (x / 16777216) (x mod 16777216) maxbr avgbr [] []) [raw] r1
+      else match dd left r1 with
+           | DOk d1 rs1 r2 =>
+               match dec_loop dd k (int64 size) (13 + (lenN r1 - lenN r2)) r2 with
+               | LDone ds rs r3 => DOk (DDcd nb ot (x / 16777216) (x mod 16777216) maxbr avgbr (d1 :: ds) []) (raw :: rs1 ++ rs) r3
+               | LUnknown ds rs u r3 => DOk (DDcd nb ot (x / 16777216) (x mod 16777216) maxbr avgbr (d1 :: ds) u) (raw :: rs1 ++ rs) r3
+               | LTooFar => DSoft | LHard => DHard | LFuel => DFuel
+               end
+           | DSoft => DSoft | DHard => DHard | DFuel => DFuel
+           end
+  | _ => DHard
+  end.
+
+(* sr.ReadBytes(int(n)) for a uint64 n: a negative int sets the reader's error *)
+Definition rd_bytes64 (n : N) (bs : list N) : option (list N * list N) :=
+  if 9223372036854775808 <=? n then None
+  else match rdB n bs with Ok (x, r) => Some (x, r) | _ => None end.
+
+(* DecodeDescriptor(sr, maxNrBytes); the fuel bounds the nesting and the loops *)
+Fixpoint dec_desc (fuel : nat) (maxNr : Z) (bs : list N) : dres :=
+  match fuel with
+  | O => DFuel
+  | S fu =>
+      if (maxNr <? 2)%Z then DSoft else
+      match bs with
+      | [] => DHard
+      | tag :: t =>
+          if tag =? 3 then DSoft                                   (* "use DecodeESDescriptor instead" *)
+          else match sz_loop t 0 with
+               | Ok ((nb, size, raw), r) =>
+                   (* exceedsMaxNrBytes: 1+uint64(sizeFieldSizeMinus1)+1+size > uint64(maxNrBytes) *)
+                   if Z.to_N maxNr <? u64 (2 + sfs_of nb + size) then DSoft
+                   else if tag =? 4 then dec_dcd (dec_desc fu) fu nb size raw r
+                   else if tag =? 5 then
+                     match rd_bytes64 size r with Some (dc, r') => DOk (DDsi nb dc) [raw] r' | None => DHard end
+                   else if tag =? 6 then
+                     match r with
+                     | [] => DHard
+                     | cv :: r1 =>
+                         if size =? 0 then DSoft      (* "SLConfigDescriptor size 0 too small" (repo commit 89e24df) *)
+                         else if 1 <? size then
+                           match rd_bytes64 (size - 1) r1 with Some (more, r') => DOk (DSlc nb cv more) [raw] r' | None => DHard end
+                         else DOk (DSlc nb cv []) [raw] r1
+                     end
+                   else match rd_bytes64 size r with Some (data, r') => DOk (DRaw tag nb data) [raw] r' | None => DHard end
+               | _ => DHard
+               end
+      end
+  end.
+
+(* Size() / SizeSize() of the descriptors *)
+Fixpoint desc_size_of (d : desc) : N :=
+  match d with
+  | DDcd _ _ _ _ _ _ cs u =>
+      13 + (fix sum (l : list desc) : N :=
+              match l with [] => 0 | c :: r => (1 + sfs_of (match c with DDcd nb _ _ _ _ _ _ _ => nb | DDsi nb _ => nb | DSlc nb _ _ => nb | DRaw _ nb _ => nb end) + 1 + desc_size_of c) + sum r end) cs
+      + lenN u
+  | DDsi _ dc => lenN dc
+  | DSlc _ _ more => 1 + lenN more
+  | DRaw _ _ data => lenN data
+  end.
+Definition desc_nb (d : desc) : N :=
+  match d with DDcd nb _ _ _ _ _ _ _ => nb | DDsi nb _ => nb | DSlc nb _ _ => nb | DRaw _ nb _ => nb end.
+Definition desc_sizesize (d : desc) : N := 1 + sfs_of (desc_nb d) + 1 + desc_size_of d.
+Definition sizes_sum (l : list desc) : N := sumN (map desc_sizesize l).
+
+(* EncodeSW of a descriptor; the size fields are taken from the stream of chunks r (captured ones, or dflt_desc) *)
+Fixpoint enc_desc (d : desc) (r : rsvT) : list N * rsvT :=
+  match d with
+  | DDcd _ ot st buf maxbr avgbr cs u =>
+      let '(body, r') :=
+        (fix go (l : list desc) (r : rsvT) : list N * rsvT :=
+           match l with
+           | [] => ([], r)
+           | c :: t => let '(x, r1) := enc_desc c r in let '(y, r2) := go t r1 in (x ++ y, r2)
+           end) cs (tl r) in
+      (* streamTypeAndBufferSizeDB := (uint32(d.StreamType) << 24) | d.BufferSizeDB *)
+      ([4] ++ hd [] r ++ be_enc 1 ot ++ be_enc 4 (N.lor (u32 (st * 16777216)) buf) ++ be_enc 4 maxbr ++ be_enc 4 avgbr ++
+       body ++ u, r')
+  | DDsi _ dc => ([5] ++ hd [] r ++ dc, tl r)
+  | DSlc _ cv more => ([6] ++ hd [] r ++ [cv] ++ more, tl r)
+  | DRaw tag _ data => ([tag] ++ hd [] r ++ data, tl r)
+  end.
+Fixpoint enc_descs (l : list desc) (r : rsvT) : list N * rsvT :=
+  match l with
+  | [] => ([], r)
+  | c :: t => let '(x, r1) := enc_desc c r in let '(y, r2) := enc_descs t r1 in (x ++ y, r2)
+  end.
+(* the size fields as the encoder writes them, in the order enc_desc consumes them *)
+Fixpoint dflt_desc (d : desc) : rsvT :=
+  wr_size (desc_size_of d) (N.to_nat (sfs_of (desc_nb d))) ::
+  match d with
+  | DDcd _ _ _ _ _ _ cs _ => (fix go (l : list desc) : rsvT := match l with [] => [] | c :: t => dflt_desc c ++ go t end) cs
+  | _ => []
+  end.
+Definition dflt_descs (l : list desc) : rsvT := flat_map dflt_desc l.
+Fixpoint nounk (d : desc) : bool :=
+  match d with
+  | DDcd _ _ _ _ _ _ cs u => (lenN u =? 0) && (fix go (l : list desc) : bool := match l with [] => true | c :: t => nounk c && go t end) cs
+  | _ => true
+  end.
+
+Definition es_opt_size (fl : N) (url : list N) : N :=
+  (if fl / 128 =? 1 then 2 else 0) + (if (fl / 64) mod 2 =? 1 then 1 + lenN url else 0) + (if (fl / 32) mod 2 =? 1 then 2 else 0).
+Definition es_size_of (fl : N) (url : list N) (dcd : desc) (cs : list desc) (u : list N) : N :=
+  3 + es_opt_size fl url + desc_sizesize dcd + sizes_sum cs + lenN u.
+Definition esds_dflt (nb fl : N) (url : list N) (dcd : desc) (cs : list desc) (u : list N) : rsvT :=
+  wr_size (es_size_of fl url dcd cs u) (N.to_nat (sfs_of nb)) :: dflt_desc dcd ++ dflt_descs cs.
+Fixpoint rsv_eqb0 (r d : rsvT) : bool :=
+  match r, d with
+  | [], [] => true
+  | c :: r', e :: d' => bytes_eqb c e && rsv_eqb0 r' d'
+  | _, _ => false
+  end.
+Definition esds_canon (rsv : rsvT) (nb fl : N) (url : list N) (dcd : desc) (cs : list desc) (u : list N) : bool :=
+  rsv_eqb0 rsv (esds_dflt nb fl url dcd cs u) && nounk dcd && forallb nounk cs && (lenN u =? 0).
+
+Definition rd_es_fields : parser (N * N * N * list N * N) :=
+  pdo esid <- rd 2 ;; pdo fl <- rd 1 ;;
+  pdo dep <- rd_if (fl / 128 =? 1) 2 ;;
+  pdo url <- (if (fl / 64) mod 2 =? 1 then (pdo n <- rd 1 ;; rdB n) else pret []) ;;
+  pdo ocr <- rd_if ((fl / 32) mod 2 =? 1) 2 ;;
+  pret (esid, fl, dep, url, ocr).
+
+(* DecodeEsdsSR: versionAndFlags, DecodeESDescriptor (descSize is not used by the Go code), sr.AccError().
+   Fuel: nesting depth and loop counts are bounded by half the number of bytes the reader can reach; the decoder may
+   read beyond the box (a descriptor can announce more than the box holds), so the fuel is the announced box size plus
+   65536 -- enough for every slice below 128 KiB, the same in a second decode of the re-encoded box (the header is
+   the same), and OutOfFuel is a separate outcome that the theorems exclude. *)
+Definition dec_esds (h : hdr) : parser (leaf * rsvT) :=
+  pdo vf <- rd 4 ;;
+  fun bs =>
+    let F := S (N.to_nat (h_size h + 65536)) in
+    let dd := dec_desc F in
+    match bs with
+    | [] => Err
+    | tag :: t =>
+        if negb (tag =? 3) then Err else
+        match sz_loop t 0 with
+        | Ok ((nb, size, raw), r) =>
+            match rd_es_fields r with
+            | Ok ((esid, fl, dep, url, ocr), r1) =>
+                let mk dcd cs u rsv := LEsds (vf_version vf) (vf_flags vf) nb esid fl dep url ocr dcd cs u
+                                             (esds_canon rsv nb fl url dcd cs u) in
+                match dd (int64 size - Z.of_N (lenN r - lenN r1))%Z r1 with
+                | DOk (DDcd a b c d0 e0 f0 g0 h0) rs1 r2 =>
+                    let dcd := DDcd a b c d0 e0 f0 g0 h0 in
+                    let left2 := (int64 size - Z.of_N (lenN r - lenN r2))%Z in
+                    match dd left2 r2 with
+                    | DOk d2 rs2 r3 =>
+                        match dec_loop dd F (int64 size) (lenN r - lenN r3) r3 with
+                        | LDone ds rs r4 =>
+                            let rsv := raw :: rs1 ++ rs2 ++ rs in
+                            if negb (size =? es_size_of fl url dcd (d2 :: ds) []) then Err
+                            else Ok ((mk dcd (d2 :: ds) [] rsv, rsv), r4)
+                        | LUnknown ds rs u r4 =>
+                            let rsv := raw :: rs1 ++ rs2 ++ rs in Ok ((mk dcd (d2 :: ds) u rsv, rsv), r4)
+                        | LTooFar => Err | LHard => Err | LFuel => OutOfFuel
+                        end
+                    | DSoft =>
+                        if (left2 <? 0)%Z then Err
+                        else match rdB (Z.to_N left2) r2 with
+                             | Ok (u, r3) => let rsv := raw :: rs1 in Ok ((mk dcd [] u rsv, rsv), r3)
+                             | _ => Err
+                             end
+                    | DHard => Err | DFuel => OutOfFuel
+                    end
+                | DOk _ _ _ => Err                    (* "expected DecoderConfigDescriptor" *)
+                | DSoft => Err | DHard => Err | DFuel => OutOfFuel
+                end
+            | _ => Err
+            end
+        | _ => Err
+        end
+    end.
+
+(* ---------------------------------------------------------------- uuid (mp4/uuid.go) *)
+Definition uuid_tfxd : list N := [109; 29; 155; 5; 66; 213; 68; 230; 128; 226; 20; 29; 175; 247; 87; 178].
+Definition uuid_tfrf : list N := [212; 128; 126; 242; 202; 57; 70; 149; 142; 84; 38; 203; 158; 70; 167; 159].
+Definition uuid_piff : list N := [162; 57; 79; 82; 90; 155; 79; 20; 162; 68; 108; 66; 124; 100; 141; 244].
+Definition rd_pairw (w : nat) : parser (N * N) := pdo a <- rd w ;; pdo b <- rd w ;; pret (a, b).
+Definition wr_pairw (w : nat) (p : N * N) : list N := be_enc w (fst p) ++ be_enc w (snd p).
+Definition uuid_w (v : N) : nat := if v =? 0 then 4%nat else 8%nat.
+(* the PIFF variant hands DecodeSencSR the header {"senc", hdr.Size - 16, 8}; the unknown variant reads
+   int(hdr.Size) - 8 - 16 bytes whatever the header length *)
+Definition dec_uuid (h : hdr) : parser (leaf * rsvT) :=
+  pdo u <- rdB 16 ;;
+  if bytes_eqb u uuid_tfxd then
+    (pdo vf <- rd 4 ;; pdo t <- rd (uuid_w (vf_version vf)) ;; pdo d <- rd (uuid_w (vf_version vf)) ;;
+     pret (LUuidTfxd (vf_version vf) (vf_flags vf) t d, []))
+  else if bytes_eqb u uuid_tfrf then
+    (pdo vf <- rd 4 ;; pdo cnt <- rd 1 ;;
+     pdo es <- rd_many 256 cnt (rd_pairw (uuid_w (vf_version vf))) ;;
+     pret (LUuidTfrf (vf_version vf) (vf_flags vf) cnt es, []))
+  else if bytes_eqb u uuid_piff then
+    (if h_size h <? 16 then pfail else
+     pdo x <- dec_senc (mkHdr n_senc (h_size h - 16) 8) ;;
+     match fst x with
+     | LSenc fl cnt raw rs np => pret (LUuidSenc fl cnt raw rs np, [])
+     | _ => pfail
+     end)
+  else if h_size h <? 24 then pfail
+  else pdo p <- rdB (h_size h - 24) ;; pret (LUuidUnk u p, []).
+
+(* ---------------------------------------------------------------- sgpd (mp4/sgpd.go, mp4/samplegroupentries.go) *)
+Definition sge_size (e : sge) : N :=
+  match e with
+  | SSeig _ _ isp ivs _ civ => 20 + (if (isp =? 1) && (ivs =? 0) then 1 + lenN civ else 0)
+  | SRoll _ => 2
+  | SRap _ _ => 1
+  | SAlst _ _ offs outs => 4 + 4 * lenN offs + 2 * lenN outs + 2 * lenN outs
+  | SUnk d => lenN d
+  end.
+Definition rd_pair16 : parser (N * N) := pdo a <- rd 2 ;; pdo b <- rd 2 ;; pret (a, b).
+Definition wr_pair16 (p : N * N) : list N := be_enc 2 (fst p) ++ be_enc 2 (snd p).
+(* decodeSampleGroupEntry(name, length, sr) followed by the check sgEntry.Size() == descriptionLength of DecodeSgpdSR;
+   the second component is the reserved byte that a seig entry skips (0 for the other kinds) *)
+Definition rd_sge (gt : list N) (dl : N) : parser (sge * N) :=
+  if bytes_eqb gt n_seig then
+    (pdo rs <- rd 1 ;; pdo b2 <- rd 1 ;; pdo isp <- rd 1 ;; pdo ivs <- rd 1 ;; pdo kid <- rdB 16 ;;
+     pdo civ <- (if (isp =? 1) && (ivs =? 0) then (pdo n <- rd 1 ;; rdB n) else pret []) ;;
+     let e := SSeig (b2 / 16) (b2 mod 16) isp ivs kid civ in
+     if negb (dl =? sge_size e) then pfail else pret (e, rs))
+  else if bytes_eqb gt n_roll then
+    (pdo d <- rd 2 ;; if negb (dl =? 2) then pfail else pret (SRoll d, 0))
+  else if bytes_eqb gt n_rap then
+    (pdo b <- rd 1 ;; if negb (dl =? 1) then pfail else pret (SRap (b / 128) (b mod 128), 0))
+  else if bytes_eqb gt n_alst then
+    (pdo rc <- rd 2 ;; pdo first <- rd 2 ;;
+     fun bs0 =>
+       (pdo offs <- rd_many (S (length bs0)) rc (rd 4) ;;
+        if dl <? 4 + 4 * rc then pfail else
+        let rem := (dl - (4 + 4 * rc)) / 4 in            (* int(length-uint32(entry.Size())) / 4 *)
+        if rem =? 0 then (if negb (dl =? 4 + 4 * rc) then pfail else pret (SAlst rc first offs [], 0))
+        else fun bs =>
+          if lenN bs / 4 <? rem then Err                 (* remaining > sr.NrRemainingBytes()/4 *)
+          else (pdo outs <- rd_many (S (length bs)) rem rd_pair16 ;;
+                if negb (dl =? 4 + 4 * rc + 4 * rem) then pfail else pret (SAlst rc first offs outs, 0)) bs) bs0)
+  else (pdo d <- rdB dl ;; pret (SUnk d, 0)).
+Definition wr_sge (e : sge) (rb : N) : list N :=
+  match e with
+  | SSeig crypt skip isp ivs kid civ =>
+      be_enc 1 rb ++ be_enc 1 (N.lor (u8 (crypt * 16)) skip) ++ be_enc 1 isp ++ be_enc 1 ivs ++ kid ++
+      (if (isp =? 1) && (ivs =? 0) then be_enc 1 (lenN civ) ++ civ else [])
+  | SRoll d => be_enc 2 d
+  | SRap known num => be_enc 1 (N.lor (u8 (known * 128)) num)
+  | SAlst rc first offs outs => be_enc 2 rc ++ be_enc 2 first ++ flat_map (be_enc 4) offs ++ flat_map wr_pair16 outs
+  | SUnk d => d
+  end.
+(* one entry of the loop of DecodeSgpdSR: the description length (DefaultLength, or read when that is 0 and version >= 1) *)
+Definition rd_sgpd_item (v dlen : N) (gt : list N) : parser ((N * sge) * N) :=
+  pdo dl <- (if (1 <=? v) && (dlen =? 0) then rd 4 else pret dlen) ;;
+  if dl =? 0 then pfail else
+  pdo x <- rd_sge gt dl ;; pret ((dl, fst x), snd x).
+Definition wr_sgpd_item (dlen : N) (it : (N * sge) * N) : list N :=
+  (if dlen =? 0 then be_enc 4 (fst (fst it)) else []) ++ wr_sge (snd (fst it)) (snd it).
+Definition dec_sgpd (h : hdr) : parser (leaf * rsvT) :=
+  pdo vf <- rd 4 ;;
+  let v := vf_version vf in
+  pdo gt <- rdB 4 ;;
+  pdo dlen <- rd_if (1 <=? v) 4 ;;
+  pdo dgdi <- rd_if (2 <=? v) 4 ;;
+  pdo cnt <- rd 4 ;;
+  fun bs => (pdo its <- rd_many (S (length bs)) cnt (rd_sgpd_item v dlen gt) ;;
+             pret (LSgpd v (vf_flags vf) gt dlen dgdi (map fst its) (forallb (fun x => snd x =? 0) its), [map snd its])) bs.
 
 (* ---------------------------------------------------------------- encoders (bodies) *)
 Definition ok_bytes (l : list N) : res (list N) := Ok l.
@@ -923,10 +1302,10 @@ Definition body_leaf (l : leaf) (r : rsvT) : res (list N) :=
   | LCslg v f a b c d e =>
       let w := if v =? 0 then 4%nat else 8%nat in
       Ok (be_enc 4 (vf_join v f) ++ be_enc w a ++ be_enc w b ++ be_enc w c ++ be_enc w d ++ be_enc w e)
-  | LSenc f cnt raw _ np =>
+  | LSenc f cnt raw rs np =>
       (* not readButNotParsed: perSampleIVSize is 0; with the sub-sample flag the loop indexes the empty SubSamples *)
       if negb np && has f 2 && (0 <? cnt) then Panic
-      else Ok (be_enc 4 (vf_join 0 f) ++ be_enc 4 cnt ++ (if np then raw else []))
+      else Ok (be_enc 4 (vf_join 0 f) ++ be_enc 4 cnt ++ (if senc_keeps np cnt rs then raw else []))
   | LEmsg v f ts pt du id sc va d =>
       Ok (be_enc 4 (vf_join v f) ++
           (if v =? 1 then be_enc 4 ts ++ be_enc 8 pt ++ be_enc 4 du ++ be_enc 4 id ++ sc ++ [0] ++ va ++ [0]
@@ -944,6 +1323,27 @@ Definition body_leaf (l : leaf) (r : rsvT) : res (list N) :=
           be_enc 1 (lenN arrays) ++ flat_map wr_narr arrays ++ chunk 5 r)
   | LSubs v f es =>
       Ok (be_enc 4 (vf_join v f) ++ be_enc 4 (lenN es) ++ flat_map (wr_subs_entry (subs_w v)) es)
+  | LEsds v f nb esid fl dep url ocr dcd cs u _ =>
+      let '(x, r1) := enc_desc dcd (tl r) in
+      let '(y, _) := enc_descs cs r1 in
+      Ok (be_enc 4 (vf_join v f) ++ [3] ++ hd [] r ++ be_enc 2 esid ++ be_enc 1 fl ++
+          (if fl / 128 =? 1 then be_enc 2 dep else []) ++
+          (if (fl / 64) mod 2 =? 1 then be_enc 1 (lenN url) ++ url else []) ++
+          (if (fl / 32) mod 2 =? 1 then be_enc 2 ocr else []) ++ x ++ y ++ u)
+  | LUuidTfxd v f t d =>
+      Ok (uuid_tfxd ++ be_enc 4 (vf_join v f) ++ be_enc (uuid_w v) t ++ be_enc (uuid_w v) d)
+  | LUuidTfrf v f cnt es =>
+      (* for i := byte(0); i < t.FragmentCount; i++ { ...FragmentAbsoluteTimes[i]... } *)
+      if lenN es <? cnt then Panic
+      else Ok (uuid_tfrf ++ be_enc 4 (vf_join v f) ++ be_enc 1 cnt ++ flat_map (wr_pairw (uuid_w v)) (firstn (N.to_nat cnt) es))
+  | LUuidSenc f cnt raw rs np =>      (* b.Senc.EncodeSWNoHdr *)
+      if negb np && has f 2 && (0 <? cnt) then Panic
+      else Ok (uuid_piff ++ be_enc 4 (vf_join 0 f) ++ be_enc 4 cnt ++ (if senc_keeps np cnt rs then raw else []))
+  | LUuidUnk u p => Ok (u ++ p)
+  | LSgpd v f gt dlen dgdi items _ =>
+      (* the reserved byte of a seig entry is written as 0: chunk 0 holds one byte per entry *)
+      Ok (be_enc 4 (vf_join v f) ++ gt ++ wr_if (1 <=? v) 4 dlen ++ wr_if (2 <=? v) 4 dgdi ++ be_enc 4 (lenN items) ++
+          flat_map (wr_sgpd_item dlen) (combine items (chunk 0 r)))
   end.
 
 (* WriteZeroBytes(int(31 - compressorNameLength)) with compressorNameLength := byte(len(name)), in byte arithmetic *)
@@ -967,6 +1367,8 @@ Definition dflt_rsv (l : leaf) : rsvT :=
   | LColr _ _ _ _ _ _ => [[0]]
   | LElng _ _ _ lang => [lang ++ [0]]
   | LHvcC _ _ _ _ _ _ _ _ _ _ _ _ _ _ _ _ => [[15]; [63]; [63]; [31]; [31]; []]
+  | LEsds _ _ nb _ fl _ url _ dcd cs u _ => esds_dflt nb fl url dcd cs u
+  | LSgpd _ _ _ _ _ items _ => [map (fun _ => 0) items]
   | _ => []
   end.
 
@@ -981,6 +1383,8 @@ Definition rsv_dc (l : leaf) : list bool :=
   | LAvcC _ _ _ _ _ _ _ _ _ _ => [true; true; true; true; true; false]
   | LElng _ _ _ _ => [false]
   | LHvcC _ _ _ _ _ _ _ _ _ _ _ _ _ _ _ _ => [true; true; true; true; true; false]
+  (* the size fields of the descriptors are not reserved bits *)
+  | LEsds _ _ nb _ fl _ url _ dcd cs u _ => map (fun _ => false) (esds_dflt nb fl url dcd cs u)
   | _ => []
   end.
 
@@ -1004,7 +1408,7 @@ Definition size_leaf (l : leaf) : N :=
   | LSidx v _ _ _ _ _ refs => 32 + (if v =? 0 then 0 else 8) + lenN refs * 12   (* repo commit ede563a; was 8*Version *)
   | LTrex _ _ _ _ _ _ _ => 32
   | LMdhd v _ _ _ _ _ _ => if v =? 1 then 44 else 32
-  | LHdlr _ _ _ _ name lacks => 8 + 24 + lenN name + 1 - (if lacks then 1 else 0)
+  | LHdlr _ _ _ ht name lacks => 8 + 20 + lenN ht + lenN name + 1 - (if lacks then 1 else 0)   (* len(HandlerType) since repo commit 3502d85 *)
   | LStts _ _ es => 16 + u32 (lenN es) * 8
   | LStsc _ _ es _ _ => 16 + lenN es * 12
   | LStsz _ _ uni num _ => if 0 <? uni then 20 else 20 + num * 4
@@ -1050,6 +1454,14 @@ Definition size_leaf (l : leaf) : N :=
   | LHvcC _ _ _ _ _ _ _ _ _ _ _ _ _ _ _ arrays =>
       8 + 23 + sumN (map (fun a => 3 + sumN (map (fun x => 2 + lenN x) (snd a))) arrays)
   | LSubs v _ es => 16 + sumN (map (fun e => 6 + lenN (snd e) * (if v =? 1 then 10 else 8)) es)
+  | LEsds _ _ nb _ fl _ url _ dcd cs u _ => 8 + 4 + (1 + sfs_of nb + 1 + es_size_of fl url dcd cs u)
+  | LUuidTfxd v _ _ _ => 24 + (if negb (v =? 0) then 20 else 12)
+  | LUuidTfrf v _ cnt _ => 24 + 5 + (if negb (v =? 0) then 16 else 8) * cnt
+  | LUuidSenc _ _ _ rs _ => 24 + (rs - 8)                  (* b.Senc.Size() - 8 *)
+  | LUuidUnk _ p => 24 + lenN p
+  | LSgpd v _ _ dlen _ items _ =>
+      20 + (if 1 <=? v then 4 else 0) + (if 2 <=? v then 4 else 0) +
+      (if 1 <=? v then (if negb (dlen =? 0) then lenN items * dlen else sumN (map (fun it => 4 + fst it) items)) else 0)
   end.
 
 (* header written by the leaf encoder *)
@@ -1081,7 +1493,7 @@ Definition leaf_table : list (list N * (hdr -> parser (leaf * rsvT))) :=
     (n_url, dec_url); (n_avcC, dec_avcC); (n_btrt, dec_btrt); (n_pasp, dec_pasp); (n_colr, dec_colr);
     (n_clap, dec_clap); (n_schm, dec_schm); (n_cslg, dec_cslg);
     (n_senc, dec_senc); (n_emsg, dec_emsg); (n_elng, dec_elng); (n_kind, dec_kind);
-    (n_hvcC, dec_hvcC); (n_subs, dec_subs) ].
+    (n_hvcC, dec_hvcC); (n_subs, dec_subs); (n_esds, dec_esds); (n_uuid, dec_uuid); (n_sgpd, dec_sgpd) ].
 
 (* boxes with a field prefix followed by child boxes.  PStrict off: DecodeContainerChildrenSR(hdr, startPos+off,
    startPos+hdr.Size) (sizes cross-checked against the bytes consumed); PEntry start: the sample entry loop
@@ -1340,8 +1752,13 @@ Definition hdr_size_field (bs : list N) : N :=
 Definition leaf_guard (l : leaf) : bool :=
   match l with
   | LTrun _ f doff _ _ => negb (has f 1 && (doff =? 0))
-  (* a senc with sample_count 0 keeps its size (readBoxSize) but its data is not written back *)
-  | LSenc _ _ raw _ np => np || (lenN raw =? 0)
+  (* a decoded senc with sample_count 0 writes its data back since repo commit 954ff09 *)
+  | LSenc _ cnt raw rs np => senc_keeps np cnt rs || (lenN raw =? 0)
+  (* an esds whose size fields are not in the encoder's form (e.g. an SLConfigDescriptor announcing 0 bytes) or that
+     kept UnknownData *)
+  | LEsds _ _ _ _ _ _ _ _ _ _ _ canon => canon
+  | LUuidSenc _ cnt raw rs np => senc_keeps np cnt rs || (lenN raw =? 0)
+  | LSgpd _ _ _ _ _ _ canon => canon
   | _ => true
   end.
 
